@@ -209,7 +209,49 @@ class Desugar(ast.NodeTransformer):
         self.k += 1
         return "_acc" if self.k == 1 else "_acc%d" % self.k
 
+    def _anyall(self, e):
+        """(generator, elt, found_means_true) for any(G) / all(G) / not any(G) / not all(G) over one generator expression"""
+        neg = False
+        while isinstance(e, ast.UnaryOp) and isinstance(e.op, ast.Not):
+            neg, e = not neg, e.operand
+        if not (isinstance(e, ast.Call) and isinstance(e.func, ast.Name) and e.func.id in ("any", "all") and len(e.args) == 1 and not e.keywords
+                and isinstance(e.args[0], ast.GeneratorExp) and len(e.args[0].generators) == 1):
+            return None
+        g = e.args[0]
+        if _targets_ok(g.generators, self.outside) is None:
+            return None
+        elt = g.elt
+        if e.func.id == "all":  # all(e) == not any(not e)
+            elt = ast.copy_location(ast.UnaryOp(op=ast.Not(), operand=elt), elt)
+            neg = not neg
+        return g.generators, elt, not neg
+
+    def _search_loop(self, gens, elt, found, exhausted, at):
+        if any(isinstance(x, (ast.Break, ast.Continue)) for b in found for x in ast.walk(b)):
+            return None
+        inner = list(found)
+        if not inner or not isinstance(inner[-1], (ast.Return, ast.Raise)):
+            inner.append(ast.copy_location(ast.Break(), at))
+        loop = self._loops(gens, [ast.copy_location(ast.If(test=elt, body=inner, orelse=[]), at)], at)
+        loop[0].orelse = list(exhausted)
+        return loop
+
     def _stmt(self, s):
+        # any(...) / all(...) over a generator expression as a statement's condition or result: a search loop ---------
+        if isinstance(s, ast.If):
+            aa = self._anyall(s.test)
+            if aa is not None:
+                gens, elt, pos = aa
+                r = self._search_loop(gens, elt, s.body if pos else s.orelse, s.orelse if pos else s.body, s)
+                if r is not None:
+                    return [ast.fix_missing_locations(x) for x in r]
+        if isinstance(s, ast.Return) and s.value is not None:
+            aa = self._anyall(s.value)
+            if aa is not None:
+                gens, elt, pos = aa
+                r = self._search_loop(gens, elt, [ast.copy_location(ast.Return(value=ast.Constant(value=pos)), s)], [], s)
+                if r is not None:
+                    return [ast.fix_missing_locations(x) for x in r] + [ast.copy_location(ast.Return(value=ast.Constant(value=not pos)), s)]
         # conditional expressions ---------------------------------------------------------
         if isinstance(s, ast.Assign) and isinstance(s.value, ast.IfExp):
             a = ast.copy_location(ast.Assign(targets=s.targets, value=s.value.body, lineno=s.lineno), s)
